@@ -7,57 +7,67 @@ from .. import cfg
 from ..common import trace_bool, bool_switch_targets, single_def, call_chain
 from ..facts import op_place, op_const
 
+V = r"[A-Za-z_][A-Za-z0-9_]*"   # a user variable (rows do not depend on how locals are named)
+
+# (function regex, signature regex [named groups feed the guard], why, guard or None, max sites)
 ROWS = [
     (r"^main$", r"^unwrap\(init\(with_level\(new\(\)\)\)\)$",
-     "logger initialisation at start-up, before any input is read; fails only if a global logger was already set", None),
-    (r"^setup_context$", r"^unwrap\(to_str\(p\)\)$",
-     "`p` is the parent of a Path built from a Rust String (valid UTF-8), so to_str() is Some", "path_from_string"),
-    (r"NextReferenceIdProcessor as .*::map::\{closure#0\}$", r"^Add\(num_missing_refs,1\):usize$",
-     "usize counter bounded by the number of entries in one file", None),
-    (r"NextReferenceIdProcessor as .*::reduce$", r"^Add\(missing_refs_result,map_result\.1\):usize$",
-     "usize sum of per-file entry counts, bounded by the input size", None),
-    (r"CountMissingReferenceIdProcessor as .*::map::\{closure#0\}$", r"^Add\(missing_ref_count,1\):u32$",
-     "u32 count of missing references in one file: overflow needs > 4294967295 statements (> 20 GB) in a single file — not an input of ordinary shape", None),
-    (r"CountMissingReferenceIdProcessor as .*::reduce$", r"^Add\(reduce_result,map_result\):u32$",
-     "u32 sum of per-file counts: overflow needs > 4294967295 unreferenced statements in the tree — not an input of ordinary shape", None),
-    (r"InsertReferencesProcessor as .*::map::\{closure#0\}$", r"^Add\(created_entries,1\):usize$",
-     "usize counter bounded by the number of entries in the file", None),
-    (r"InsertReferencesProcessor as .*::reduce$", r"^Add\(insert_count,map_result\.num_inserted_references\):usize$",
-     "usize sum bounded by the number of entries in the tree", None),
-    (r"InsertReferencesProcessor as .*::map::\{closure#0\}$", r"^Add\(unwritten_content_start_pos,Sub\(insert_pos,unwritten_content_start_pos\)\.0\):usize$",
-     "cursor + (pos - cursor) = pos, a byte offset into the file", None),
-    (r"InsertReferencesProcessor as .*::map::\{closure#0\}$", r"^index\[Range<usize\]\(as_bytes\(file_contents\),Range\{unwritten_content_start_pos,insert_pos\}\)$",
-     "cursor <= insert_pos by the dominating guard; insert_pos is a span offset of this very text, so <= len", "lt_guard:insert_pos,unwritten_content_start_pos"),
-    (r"InsertReferencesProcessor as .*::map::\{closure#0\}$", r"^index\[Range<usize\]\(as_bytes\(file_contents\),Range\{unwritten_content_start_pos,end_of_file_index\}\)$",
-     "executed only when cursor < len(file_contents) = end_of_file_index", "lt_true:unwritten_content_start_pos,end_of_file_index"),
-    (r"Context::cache_next_reference_id$", r"^insert_str\(yaml,0,",
-     "index 0 is always a char boundary", None),
+     "logger initialisation at start-up, before any input is read; fails only if a global logger was already set", None, 1),
+    (r"^setup_context$", r"^unwrap\(to_str\(%s\)\)$" % V,
+     "the value is the parent of a Path built from a Rust String (valid UTF-8), so to_str() is Some", "path_from_string", 1),
+    (r"NextReferenceIdProcessor as .*::map::\{closure#0\}$", r"^Add\(%s,1\):usize$" % V,
+     "usize counter bounded by the number of entries in one file", None, 1),
+    (r"NextReferenceIdProcessor as .*::reduce$", r"^Add\(%s,%s\.1\):usize$" % (V, V),
+     "usize sum of per-file entry counts, bounded by the input size", None, 1),
+    (r"CountMissingReferenceIdProcessor as .*::map::\{closure#0\}$", r"^Add\(%s,1\):u32$" % V,
+     "u32 count of missing references in one file: overflow needs > 4294967295 statements (> 20 GB) in a single file — not an input of ordinary shape", None, 1),
+    (r"CountMissingReferenceIdProcessor as .*::reduce$", r"^Add\(%s,%s\):u32$" % (V, V),
+     "u32 sum of per-file counts: overflow needs > 4294967295 unreferenced statements in the tree — not an input of ordinary shape", None, 1),
+    (r"InsertReferencesProcessor as .*::map::\{closure#0\}$", r"^Add\(%s,1\):usize$" % V,
+     "usize counter bounded by the number of entries in the file", None, 1),
+    (r"InsertReferencesProcessor as .*::reduce$", r"^Add\(%s,%s\.num_inserted_references\):usize$" % (V, V),
+     "usize sum bounded by the number of entries in the tree", None, 1),
+    (r"InsertReferencesProcessor as .*::map::\{closure#0\}$", r"^Add\((?P<c>%s),Sub\((?P<a>%s),(?P=c)\)\.0\):usize$" % (V, V),
+     "cursor + (pos - cursor) = pos, a byte offset into the file", None, 1),
+    (r"InsertReferencesProcessor as .*::map::\{closure#0\}$", r"^index\[Range<usize\]\(as_bytes\(file_contents\),Range\{(?P<c>%s),(?P<a>character\(position\(%s\)\)|%s)\}\)$" % (V, V, V),
+     "cursor <= insertion offset by the dominating guard; the offset is a span offset of this very text, so <= len", "lt_guard", 1),
+    (r"InsertReferencesProcessor as .*::map::\{closure#0\}$", r"^index\[Range<usize\]\(as_bytes\(file_contents\),Range\{(?P<a>%s),(?P<c>len\(file_contents\)|%s)\}\)$" % (V, V),
+     "executed only when cursor < len(file_contents)", "lt_true", 1),
+    (r"Context::cache_next_reference_id$", r"^insert_str\(%s,0," % V,
+     "index 0 is always a char boundary", None, 1),
     (r"code_parser::check_for_boolean_directive$", r"^index\[RangeFrom<usize\]\(code,RangeFrom\{subject_pos\}\)$",
-     "subject_pos is the start() of a pest span over `code` at both call sites (C14-R4): a char boundary <= len", "directive_callers"),
+     "subject_pos is the start() of a pest span over `code` at both call sites (C14-R4): a char boundary <= len", "directive_callers", 1),
     (r"code_parser::check_for_boolean_directive$", r"^Add\(subject_pos,map_or\(next\(chars\(index\(code\)\)\)\)\):usize$",
-     "offset + length of one char of the same string: <= len", None),
-    (r"code_parser::check_for_boolean_directive$", r"^index\[RangeTo<usize\]\(code,RangeTo\{subject_end\}\)$",
-     "subject_end = subject_pos + len_utf8(first char at subject_pos): a char boundary <= len", "char_boundary_end"),
+     "offset + length of one char of the same string: <= len", None, 1),
+    (r"code_parser::check_for_boolean_directive$", r"^index\[RangeTo<usize\]\(code,RangeTo\{(%s|Add\(subject_pos,map_or\(next\(chars\(index\(code\)\)\)\)\)\.0)\}\)$" % V,
+     "end = subject_pos + len_utf8(first char at subject_pos): a char boundary <= len", "char_boundary_end", 1),
     (r"rust_log_ref_finder::find$", r"^panic\('internal error: entered unrea",
-     "the `_ => unreachable!()` arm of the pair walk: the grammar produces only log_macro / EOI under `file` (C17-R2)", "walk_covers"),
-    (r"rust_log_ref_finder::find$", r"^Add\(start\(rule_ref_container_span\),1\):usize$",
-     "span start + 1 where the span begins with the 1-byte `(`: <= len", None),
-    (r"rust_log_ref_finder::find$", r"^Add\(line_col\(start_pos\(rule_ref_container_span\)\)\.1,1\):usize$",
-     "column + 1, bounded by the line length", None),
-    (r"rust_log_ref_finder::find::\{closure#0\}$", r"^Add\(i,2\):usize$",
-     "i = rfind(\"::\") of the name: i + 2 <= len", "rfind_closure"),
-    (r"rust_log_ref_finder::find::\{closure#0\}$", r"^index\[RangeFrom<usize\]\(macro_name_str,RangeFrom\{Add\(i,2\)\.0\}\)$",
-     "i + len(\"::\") is the end of an ASCII match inside the string: a char boundary <= len", "rfind_closure"),
+     "the `_ => unreachable!()` arm of the pair walk: the grammar produces only log_macro / EOI under `file` (C17-R2)", "walk_covers", 1),
+    (r"rust_log_ref_finder::find$", r"^Add\(start\(%s\),1\):usize$" % V,
+     "span start + 1 where the span begins with the 1-byte `(`: <= len", None, 1),
+    (r"rust_log_ref_finder::find$", r"^Add\(line_col\(start_pos\(%s\)\)\.1,1\):usize$" % V,
+     "column + 1, bounded by the line length", None, 1),
+    (r"rust_log_ref_finder::find::\{closure#0\}$", r"^Add\(%s,2\):usize$" % V,
+     "the argument is rfind(\"::\") of the name: + 2 <= len", "rfind_closure", 1),
+    (r"rust_log_ref_finder::find::\{closure#0\}$", r"^index\[RangeFrom<usize\]\(%s,RangeFrom\{Add\(%s,2\)\.0\}\)$" % (V, V),
+     "offset of the end of an ASCII match inside the string: a char boundary <= len", "rfind_closure", 1),
 ]
 
 
 class _T(dict):
     def get(self, key, default=None):
         fn, sig = key.split("|", 1)
-        for (fr, sr, why, guard) in ROWS:
-            if re.search(fr, fn) and re.search(sr, sig):
-                return {"why": why, "guard": guard, "row": (fr, sr)}
-        return default
+        rows = self.candidates(key)
+        return rows[0] if rows else default
+
+    def candidates(self, key):
+        fn, sig = key.split("|", 1)
+        out = []
+        for (fr, sr, why, guard, cnt) in ROWS:
+            m = re.search(sr, sig)
+            if re.search(fr, fn) and m:
+                out.append({"why": why, "guard": guard, "row": (fr, sr), "groups": m.groupdict(), "max": cnt})
+        return out
 
     def __len__(self):
         return len(ROWS)
@@ -102,16 +112,17 @@ def guard_check(facts, s, row):
     b = s["body"]
     if not g:
         return True, ""
-    if g.startswith("lt_guard:"):
-        a, c = g.split(":")[1].split(",")
+    if g == "lt_guard":
+        a, c = row["groups"]["a"], row["groups"]["c"]
         # site needs c <= a, i.e. dominated by the arm where NOT (a < c)
         return _cmp_guard(b, s["bb"], a, c, "ge")
-    if g.startswith("lt_true:"):
-        a, c = g.split(":")[1].split(",")
+    if g == "lt_true":
+        a, c = row["groups"]["a"], row["groups"]["c"]
         ok, why = _cmp_guard(b, s["bb"], a, c, "lt")
         if not ok:
             return ok, why
-        # end_of_file_index must be len(file_contents)
+        if c.startswith("len("):
+            return True, why
         for l in b.locals_named(c):
             d = single_def(b, l)
             if d and d[1] == "call" and d[2].matches(r"str>::len$|::len$"):
